@@ -292,14 +292,14 @@ def unit_finish(U):
                 qs = [q for q in st["state"]["queries"] if q[1].source[0] == "table"]
                 g2 = []
                 for (stm, si, args) in qs:
-                    cols = [Q.expr_text(c) for c, _ in si.columns]
+                    cols = Q.select_cols(si)
                     try:
                         rows_ = {"features": frow, "relations": rrow}
                         env = Q.RowEnv(rows_, list(args), stm.holes)
                         conds = [Q._zb(Q.as_tv(Q.eval_expr(on, env)).t) for jt, on in si.joins]
                         conds.append(Q._zb(Q.as_tv(Q.eval_expr(si.where, env)).t))
                         spec = z3.And(rrow["child"].term == frow["id"].term, rrow["parent"].term == IM.zs(args[0]), frow["featuretype"].term == z3.StringVal("exon"))
-                        g2.append(z3.And(z3.And(*conds) == spec, z3.BoolVal(cols == ["MIN(start)", "MAX(end)", "strand", "seqid"] and env.pos == len(env.args)
+                        g2.append(z3.And(z3.And(*conds) == spec, z3.BoolVal([c.replace("features.", "") for c in cols] == ["min(start)", "max(end)", "strand", "seqid"] and env.pos == len(env.args)
                                                                            and si.source[1] == "features" and [j for j, _ in si.joins] == ["relations"])))
                     except (Q.SQLArgs, Q.SQLSyntax, Undecided):
                         g2.append(z3.BoolVal(False))
